@@ -113,12 +113,12 @@ class LogicBlock(SystemWideDevice, ModeDevice):
                     mode.add_mode_event_handler(MODE_STARTING_EVENT_TEMPLATE.format(mode.name),
                                                 self.event_enable, priority=mode.priority + 1)
 
-                self._state = player[self.player_state_variable]
+                self._set_state(player[self.player_state_variable])
                 self.value = self.get_start_value()
             else:
-                self._state = player[self.player_state_variable]
+                self._set_state(player[self.player_state_variable])
         else:
-            self._state = LogicBlockState()
+            self._set_state(LogicBlockState())
             self.value = self.get_start_value()
             if self._start_enabled:
                 mode.add_mode_event_handler(MODE_STARTING_EVENT_TEMPLATE.format(mode.name),
@@ -131,7 +131,14 @@ class LogicBlock(SystemWideDevice, ModeDevice):
         super().device_removed_from_mode(mode)
         # pending timeout/hit window delays must not outlive the mode
         self.delay.clear()
-        self._state = None
+        self._set_state(None)
+
+    def _set_state(self, state: Optional[LogicBlockState]):
+        """Replace the internal state and notify subscribers about everything which changed with it."""
+        old_values = (self.value, self.enabled, self.completed)
+        self._state = state
+        for attribute, old_value in zip(("value", "enabled", "completed"), old_values):
+            self.notify_virtual_change(attribute, old_value, getattr(self, attribute))   # type: ignore
 
     @property
     def value(self):
